@@ -63,34 +63,47 @@ class HelperReplay:
         self.m = maths
         self.seen: set = set()
         self.n = 0
+        self._frac: dict = {}
+        self._oracle: dict = {}
+        self.phases = PHASES[:2] if ctx.quick else PHASES
         self.counts = {"seam_exact": 0, "seam_near": 0, "half_turn_pairs": 0}
 
     # -- one scalar result against the exact value of the actual float input -----------------
     def check(self, func: str, r, exact: Fraction, lo: float, hi: float, lo_open: bool, direct: bool, inp: dict):
+        """`exact` is the exact wrap of the actual float input; `direct` says that every intermediate
+        operation of the helper is exact for this input (then an input on the seam is decided by the
+        documented range); otherwise results within 1e-9 of a seam are accepted on either side."""
         r = float(r)
         e = float(exact)
-        bad_range = not ((r > lo if lo_open else r >= lo) and (r <= hi if lo_open else r < hi))
-        if bad_range:
-            if r == -A.PI:
-                sig, what = f"{func}-returns-minus-pi-at-half-turn", f"{func} returned -pi, documented range is (-pi, pi]"
-            elif lo == 0.0 and (r >= A.TWOPI or r < 0):
+        on_seam = exact == (A.F_PI if lo_open else 0)
+        if not (lo - TOL <= r <= hi + TOL):
+            if lo == 0.0:
                 sig, what = f"{func}-result-outside-0-2pi", f"{func} returned {r!r}, documented range is [0, 2pi)"
             else:
-                sig, what = f"{func}-out-of-range", f"{func} returned {r!r} outside its documented range"
+                sig, what = f"{func}-out-of-range", f"{func} returned {r!r}, documented range is (-pi, pi]"
             self.ctx.violation(sig, what, dict(inp, got=r, exact=e))
-            return
-        if not (A.circ_dist(r, e) <= TOL):
+        elif not (A.circ_dist(r, e) <= TOL):
             self.ctx.violation(f"{func}-value", f"{func} returned {r!r}, exact value {e!r}", dict(inp, got=r, exact=e))
-            return
-        included = exact == (A.F_PI if lo_open else 0)
-        if included:
+        elif on_seam:
             self.counts["seam_exact"] += 1
-            # the input denotes exactly the included end of the range: the documented range decides
             if direct and abs(r - e) > TOL:
-                self.ctx.violation(f"{func}-seam-side", f"{func} returned {r!r} for an input that is exactly {e!r}",
-                                   dict(inp, got=r, exact=e))
+                if lo_open and r == -A.PI:
+                    sig, what = (f"{func}-returns-minus-pi-at-half-turn",
+                                 f"{func} returned -pi for an exact half turn, documented range is (-pi, pi]")
+                else:
+                    sig, what = f"{func}-wrong-side-of-seam", f"{func} returned {r!r} for an input that denotes exactly {e!r}"
+                self.ctx.violation(sig, what, dict(inp, got=r, exact=e))
         elif min(abs(e - lo), abs(e - hi)) <= TOL:
-            self.counts["seam_near"] += 1    # not representable exactly: both neighbours accepted
+            self.counts["seam_near"] += 1    # not on the seam but within 1e-9 of it: both sides accepted
+        elif not ((r > lo if lo_open else r >= lo) and (r <= hi if lo_open else r < hi)):
+            self.ctx.violation(f"{func}-out-of-range", f"{func} returned {r!r} outside its documented range",
+                               dict(inp, got=r, exact=e))
+
+    def _fr(self, x: float) -> Fraction:
+        f = self._frac.get(x)
+        if f is None:
+            f = self._frac[x] = Fraction(x)
+        return f
 
     def wraps(self, ra: int, w1: int, wn: int, alg: str):
         key = ("w", alg, ra)
@@ -100,7 +113,7 @@ class HelperReplay:
         m = self.m
         for ph in PHASES:
             x = A.tick_value(ra) + ph
-            fx = Fraction(x)
+            fx = self._fr(x)
             e2, en = A.exact_wrap2pi(fx), A.exact_wrapneg(fx)
             if A.circ_dist(float(e2), w1 * A.TAU + ph) > 1e-11 or A.circ_dist(float(en), wn * A.TAU + ph) > 1e-11:
                 raise tlc.MachineryError(f"oracles disagree on wrap of {ra} ticks: spec {w1},{wn}, exact {float(e2)},{float(en)}")
@@ -135,21 +148,27 @@ class HelperReplay:
             self.counts["half_turn_pairs"] += 1
         for ph in PHASES:
             x, y = A.tick_value(ra) + ph, A.tick_value(rb) + ph
-            ex = A.exact_wrapneg(Fraction(x) - Fraction(y))
-            eyx = A.exact_wrapneg(Fraction(y) - Fraction(x))
-            # the two oracles (spec integers, exact rationals of the float inputs) must agree
-            if A.circ_dist(float(ex), st["res"] * A.TAU) > 1e-11 or A.circ_dist(float(eyx), st["resba"] * A.TAU) > 1e-11:
-                raise tlc.MachineryError(f"oracles disagree on residual({ra},{rb}): spec {st['res']}, exact {float(ex)}")
+            ok = self._oracle.get((ra, rb, ph))
+            if ok is None:
+                dxy = self._fr(x) - self._fr(y)
+                ex, eyx = A.exact_wrapneg(dxy), A.exact_wrapneg(-dxy)
+                # the two oracles (spec integers, exact rationals of the float inputs) must agree
+                if A.circ_dist(float(ex), st["res"] * A.TAU) > 1e-11 or A.circ_dist(float(eyx), st["resba"] * A.TAU) > 1e-11:
+                    raise tlc.MachineryError(f"oracles disagree on residual({ra},{rb}): spec {st['res']}, exact {float(ex)}")
+                # no rounding anywhere in the helper: both values already in [0, 2pi), difference exact
+                dr = 0.0 <= x < A.TWOPI and 0.0 <= y < A.TWOPI and dxy == Fraction(x - y)
+                ok = self._oracle[(ra, rb, ph)] = (ex, eyx, dr)
+            ex, eyx, dr = ok
             inp = {"a_ticks": ra, "b_ticks": rb, "phase": ph, "x": x, "y": y, "spec_residual_ticks": st["res"]}
             if alg == "scalar":
-                self.check("residual", m.residual(x, y, True), ex, -A.PI, A.PI, True, False, inp)
-                self.check("residual", m.residual(y, x, True), eyx, -A.PI, A.PI, True, False, dict(inp, swapped=True))
+                self.check("residual", m.residual(x, y, True), ex, -A.PI, A.PI, True, dr, inp)
+                self.check("residual", m.residual(y, x, True), eyx, -A.PI, A.PI, True, dr, dict(inp, swapped=True))
                 lin = float(m.residual(x, y, False))
                 if lin != x - y:
                     self.ctx.violation("residual-linear", "non-angular residual is not the plain difference", inp)
                 vec = m.residuals(np.array([x, x, y]), np.array([y, y, x]), np.array([True, False, True]))
-                self.check("residuals", vec[0], ex, -A.PI, A.PI, True, False, inp)
-                self.check("residuals", vec[2], eyx, -A.PI, A.PI, True, False, dict(inp, swapped=True))
+                self.check("residuals", vec[0], ex, -A.PI, A.PI, True, dr, inp)
+                self.check("residuals", vec[2], eyx, -A.PI, A.PI, True, dr, dict(inp, swapped=True))
                 if float(vec[1]) != x - y:
                     self.ctx.violation("residuals-flag-order", "residuals() wrapped a component flagged non-angular", inp)
             else:
@@ -158,12 +177,12 @@ class HelperReplay:
                 obs = np.array([[y], [y], [x]])
                 flags = np.array([[True], [False], [True]])
                 out = m.vecResiduals(pop, obs, flags)
-                self.check("vecResiduals", out[0, 0], ex, -A.PI, A.PI, True, False, inp)
-                self.check("vecResiduals", out[2, 0], eyx, -A.PI, A.PI, True, False, dict(inp, swapped=True))
+                self.check("vecResiduals", out[0, 0], ex, -A.PI, A.PI, True, dr, inp)
+                self.check("vecResiduals", out[2, 0], eyx, -A.PI, A.PI, True, dr, dict(inp, swapped=True))
                 if float(out[1, 0]) != x - y or float(out[1, 1]) != y - y:
                     self.ctx.violation("vecResiduals-flag-order", "vecResiduals wrapped a component flagged non-angular", inp)
                 zero = Fraction(0)
-                self.check("vecResiduals", out[0, 1], zero, -A.PI, A.PI, True, False, dict(inp, same=True))
+                self.check("vecResiduals", out[0, 1], zero, -A.PI, A.PI, True, True, dict(inp, same=True))
             self.ctx.case(("res", alg, ra, rb, ph), nontrivial=ra != rb,
                           sample=dict(inp, alg=alg) if (ra, rb, ph) in (((A.N // 2), 0, 0.0), (47, -30, 0.0)) else None)
             self.n += 1
@@ -183,7 +202,7 @@ class HelperReplay:
         z = sum(wi * complex(math.cos(v * A.TAU), math.sin(v * A.TAU)) for v, wi in zip(vals, w))
         cond = float(np.abs(wf).sum()) / max(abs(z), 1e-300)
         tol = TOL * max(1.0, cond)
-        for ph in PHASES:
+        for ph in self.phases:
             ang = np.array([A.tick_value(v) + ph for v in vals])
             calls = [("weighted", wf)]
             if len(set(w)) == 1 and w[0] > 0:
@@ -252,7 +271,7 @@ def replay_group(task):
     sc = _scene(tuning)
     out = {"violations": [], "cases": [], "worst": {}, "n": 0, "seam_straddled": 0, "w0": sc.w0, "cond": sc.weight_cond}
     base = sc.update(base_stack)
-    floor = 1.0e4 * EPS * sc.weight_cond
+    floor = 1.0e5 * EPS * sc.weight_cond
     order = {(i, c): n for n, (i, c, _) in enumerate(base["comps"])}
     ang_b = base["innovation"][base["is_angular"]]
     # sigma points of the canonical stack: does the predicted azimuth straddle a seam?
@@ -323,6 +342,9 @@ def run(ctx: Ctx, only_stacks=None):
 
 
 def _run(ctx: Ctx, pool, only_stacks):
+    import time
+    t0 = time.time()
+    phase = {}
     ctx.rule = ("helpers: every (a, b) on Z_24 x turn offsets x both branches (values deduplicated), x 3 common sub-tick "
                 "phases; non-trivial = a != b.  mean: every posed weighted list x centre x group action, non-trivial = more "
                 "than one member.  filter: every 'updated' state of ObsGroup.tla (tuning x kinds x seam placement x "
@@ -330,13 +352,15 @@ def _run(ctx: Ctx, pool, only_stacks):
                 "the canonical stack; distinct by (tuning, stack)")
     ctx.assumptions = [
         "one tick = 15 degrees; t ticks -> (t/24) * TWOPI radians; exact value of a helper = exact rational wrap of the "
-        "ACTUAL float input with the code's float period; compared circularly at 1e-9 plus strict documented float range",
-        "exact seam: a direct wrap of an input that is exactly the included end of the range must return that end; "
-        "results whose exact value is within 1e-9 of a seam without being on it are accepted on either side",
+        "ACTUAL float input with the code's float period; results compared circularly at 1e-9 and against the documented range",
+        "seam rule: an input that denotes exactly the included end of the range, with every intermediate operation of the "
+        "helper exact (direct wraps; residuals of two values in [0, 2pi) whose float difference is exact), must give that end "
+        "(the documented range decides); a result whose exact value is within 1e-9 of a seam without being on it, or whose "
+        "intermediates round, is accepted on either side",
         "angularMean: tolerance 1e-9 * max(1, sum|w| / |resultant|); exact mean = tick, or open sector between two ticks",
         "filter: scaled errors (est_x per position/velocity norm, est_p per sqrt(Pii Pjj), innovation per max(|value|, sigma)); "
-        "tolerance 1e-9 (1e-7 when the order changes) + 1e4 * eps * sum|W| / |sum W| of the sigma-point weights "
-        "(default tuning: centre weight -2e6, floor 8.9e-6; alpha = 1: floor 7e-12)",
+        "tolerance 1e-9 (1e-7 when the order changes) + 1e5 * eps * sum|W| / |sum W| of the sigma-point weights "
+        "(default tuning: centre weight -2e6, floor 8.9e-5; alpha = 1: floor 7e-11)",
         "innovations of exactly half a turn are not posed at filter level (the posterior is discontinuous there)",
         "measured values are synthetic (predicted +- fixed offsets, or exactly the tick value); geometry from the real "
         "Azimuth/Elevation/Range/RangeRate functions; AzimuthSym = real Azimuth with its wrap point moved to +-pi",
@@ -345,17 +369,23 @@ def _run(ctx: Ctx, pool, only_stacks):
     ex = ThreadPoolExecutor(6)
     w_small = max(2, ctx.cpus // 4)
 
+    # short runs: C1 compiler only and few GC threads (the machine is shared)
+    jopts = "-XX:TieredStopAtLevel=1 -XX:ParallelGCThreads=2" if q else "-XX:ParallelGCThreads=4"
+
     def tl(module, cfg, name, **kw):
-        return ex.submit(tlc.run_tlc, module, cfg, ctx.sub(name), workers=kw.pop("workers", w_small), timeout=3000, **kw)
+        return ex.submit(tlc.run_tlc, module, cfg, ctx.sub(name), workers=kw.pop("workers", w_small), timeout=3000,
+                         java_opts=jopts, **kw)
 
     f_obs = tl("ObsGroup", _cfg("ObsGroup", ctx), "obs")
     f_sim = tl("ObsGroup", _cfg("ObsGroup_sim", ctx), "obs_sim", workers=1, simulate=f"num={40 if q else 1500}", depth=10,
                seed=ctx.seed + 1)
     f_res = tl("Angles", _cfg("Angles_res", ctx), "res")
     f_mean = tl("Angles", _cfg("Angles_mean", ctx), "mean")
-    f_spec = tl("ObsGroup", _cfg("ObsGroup_spec", ctx), "obs_spec", coverage=not q)
-    f_mut = [("VecRecentreAsCoded", "ResidualInRange", tl("Angles", RES_MUTANT_CFG % ("FALSE", "TRUE"), "mut1", workers=1)),
-             ("VecReduceAsCoded", "ReducedInRange", tl("Angles", RES_MUTANT_CFG % ("TRUE", "FALSE"), "mut2", workers=1))]
+    # thorough only: longer group words with action coverage, and the two spec mutants
+    f_spec = None if q else tl("ObsGroup", _cfg("ObsGroup_spec", ctx), "obs_spec", coverage=True)
+    f_mut = [] if q else [
+        ("VecRecentreAsCoded", "ResidualInRange", tl("Angles", RES_MUTANT_CFG % ("FALSE", "TRUE"), "mut1", workers=1)),
+        ("VecReduceAsCoded", "ReducedInRange", tl("Angles", RES_MUTANT_CFG % ("TRUE", "FALSE"), "mut2", workers=1))]
 
     # ---- filter level: hand the behaviours to the worker processes as soon as TLC is done
     obs = _spec_ok(f_obs.result(), "ObsGroup (replay configuration)")
@@ -363,7 +393,7 @@ def _run(ctx: Ctx, pool, only_stacks):
     sim = _spec_ok(f_sim.result(), "ObsGroup (simulation)")
     ctx.add_tlc(sim, "ObsGroup.tla random behaviours with up to 4 group actions (simulation mode); updated states replayed")
     states = {}
-    for st in obs.tagged("OBS") + sim.tagged("OBS"):
+    for st in sorted(obs.tagged("OBS") + sim.tagged("OBS"), key=lambda x: json.dumps(x, sort_keys=True)):
         states.setdefault(json.dumps([st["tuning"], st["stack"]], sort_keys=True), st)
     if not states:
         raise tlc.MachineryError("ObsGroup.tla emitted no state")
@@ -379,31 +409,34 @@ def _run(ctx: Ctx, pool, only_stacks):
         for i in range(0, max(1, len(stacks)), 24):
             tasks.append((tuning, base, stacks[i:i + 24]))
     async_res = pool.map_async(replay_group, tasks, chunksize=1)
+    phase["obsgroup_tlc_done"] = round(time.time() - t0, 1)
 
     # ---- helper level, in this process, while the workers run the filters
     hr = HelperReplay(ctx)
     res = _spec_ok(f_res.result(), "Angles residual machine")
     ctx.add_tlc(res, "Angles.tla residual machine exhaustive (wrap/residual identities); every done state replayed")
-    rs = res.tagged("RES")
+    rs = sorted(res.tagged("RES"), key=lambda x: (x["alg"], x["ra"], x["rb"]))     # TLC's workers print in any order
     if not rs:
         raise tlc.MachineryError("Angles.tla (SpecRes) emitted no state")
     for st in rs:
         hr.residual(st)
     n_res = hr.n
+    phase["residual_replay_done"] = round(time.time() - t0, 1)
     mean = _spec_ok(f_mean.result(), "Angles mean machine")
     ctx.add_tlc(mean, "Angles.tla mean machine exhaustive (exact circular mean, equivariance); every done state replayed")
-    ms = mean.tagged("MEAN")
+    ms = sorted(mean.tagged("MEAN"), key=lambda x: (x["vals"], x["w"]))
     if not ms:
         raise tlc.MachineryError("Angles.tla (SpecMean) emitted no state")
     for st in ms:
         hr.mean(st)
     ctx.traces_validated += len(rs) + len(ms)
+    phase["mean_replay_done"] = round(time.time() - t0, 1)
     ctx.extra["helper_evaluations"] = {"wrap_and_residual_inputs": n_res, "mean_inputs": hr.n - n_res, **hr.counts}
 
     # ---- spec-level: larger group words, coverage, spec mutants
-    spec = _spec_ok(f_spec.result(), "ObsGroup (two group actions)")
-    ctx.add_tlc(spec, "ObsGroup.tla exhaustive with two group actions per behaviour (action property, invariants)")
-    if not q:
+    if f_spec is not None:
+        spec = _spec_ok(f_spec.result(), "ObsGroup (two group actions)")
+        ctx.add_tlc(spec, "ObsGroup.tla exhaustive with two group actions per behaviour (action property, invariants)")
         need = ["PoseTuning", "PoseKinds", "PosePlacement", "PoseSubs", "AddTurns", "MoveSeam", "Reexpress", "Remodel",
                 "Permute", "Update"]
         missing = [a for a in need if spec.coverage.get(f"ObsGroup!{a}", (0, 0))[1] == 0]
@@ -435,6 +468,8 @@ def _run(ctx: Ctx, pool, only_stacks):
             kk = f"{t[0]}:{k[0]}:{k[1]}"
             worst[kk] = max(worst.get(kk, 0.0), e)
     ctx.traces_validated += n_upd
+    phase["ukf_replay_done"] = round(time.time() - t0, 1)
+    ctx.extra["phase_s"] = phase
     some = next(iter(states.values()))
     ctx.samples.append({"ukf_state": some})
     ctx.extra["ukf_updates"] = n_upd
